@@ -67,12 +67,9 @@ func (r *ComDoc) writeSector(sector SecID, content []byte) error {
 
 // Mark a chain of sectors as free
 func freeSectors(sat []SecID, sector SecID) {
-	for {
+	for sector >= 0 {
 		nextSector := sat[sector]
 		sat[sector] = SecIDFree
-		if nextSector < 0 {
-			break
-		}
 		sector = nextSector
 	}
 }
